@@ -9,6 +9,8 @@ from facts import Place, Operand
 CMP_SWAP = {'Lt': 'Gt', 'Gt': 'Lt', 'Le': 'Ge', 'Ge': 'Le', 'Eq': 'Eq', 'Ne': 'Ne'}
 CMP_NEG = {'Lt': 'Ge', 'Ge': 'Lt', 'Gt': 'Le', 'Le': 'Gt', 'Eq': 'Ne', 'Ne': 'Eq'}
 
+import re
+
 
 class ExprBuilder:
     def __init__(self, cfg, max_depth=40, fold_named=False):
@@ -59,6 +61,14 @@ class ExprBuilder:
                 return ('proj', inner) + tuple(projs[1:])
             if base[0] in ('place', 'proj'):
                 return base + tuple(projs)
+            # (a, b, c).1 -> b   (`match (x, flag_a, flag_b) { (_, true, false) => .. }` switches on the elements of a tuple temp)
+            if base[0] == 'agg' and base[1] == 'tuple' and projs and re.match(r'^\.\d+$', projs[0]) and int(projs[0][1:]) < len(base[2]):
+                el = base[2][int(projs[0][1:])]
+                if len(projs) == 1:
+                    return el
+                if isinstance(el, tuple) and el[0] in ('place', 'proj'):
+                    return el + tuple(projs[1:])
+                return ('proj', el) + tuple(projs[1:])
             # (AddWithOverflow(a, b)).0 -> Add(a, b)
             if base[0] == 'bin' and base[1].endswith('WithOverflow') and projs == ['.0']:
                 return ('bin', base[1][:-len('WithOverflow')], base[2], base[3])
